@@ -9,8 +9,9 @@ META = {
     "explanation": "Exact language equality (regex automata incl. the calling method and `$` vs `\\Z`) of the three identifier "
                    "patterns with the documented grammar (RX1); alphabet facts that make name.task[.version] uniquely decodable "
                    "(RX2); print/parse tables (RT-P); resolution of ':name' against the listing COND file's directory (REL1); "
-                   "__eq__/__hash__ agreement (HASH1).",
-    "rules": ["RX1", "RX2", "RT-P", "REL1", "HASH1"],
+                   "__eq__/__hash__ agreement (HASH1); combine() rejects dependencies whose names coincide, because its entries are "
+                   "named by task name alone (CB3).",
+    "rules": ["RX1", "RX2", "RT-P", "REL1", "HASH1", "CB3"],
     "assumptions": ["re._parser's AST is the engine's semantics (cross-checked on the witnesses in the engine self-check)"],
     "trusted": ["ast parser", "re._parser", "constant folder"],
     "technique": "static analysis: regex AST → symbolic-alphabet DFA language equivalence, plus AST agreement rules",
@@ -173,3 +174,7 @@ def run(A, rep, tier):
         pf = A.fn(TI + prop)
         r = [x for x in walk_local(pf.node) if isinstance(x, ast.Return)]
         rep.check(len(r) == 1 and norm(r[0].value) == "self." + field, "HASH1", "property %s" % prop, pf.node, "", "%s getter changed" % prop, deep=False)
+    # distinct locations inside a combine directory: entries are named by the dependency's *name* only, so two
+    # dependencies with the same name (from different directories) must be rejected
+    from . import combine as CB
+    CB.rule_cb3(A, rep)
